@@ -46,7 +46,7 @@ theorem C20_bound_le (fp : Hash → Bool) {c : Cfg} (h : Reachable fp c) :
     bound c ≤ c.docA.applied.length + c.docB.applied.length + 4 ∧
     bound c ≤ 2 * (c.docA.hashes ++ c.docB.hashes).eraseDups.length + 4 := by
   have h1 := missing_le c
-  have h2 := missing_le_distinct fp h
+  have h2 := missing_le_distinct (Inv.of_reachable fp h)
   unfold bound
   omega
 
